@@ -140,11 +140,60 @@ def task_leg(run, rng, tier, drv):
             "run_task_with_notes": sum(1 for _, m in cases if m["showinc"]), "run_task_failing_commands": sum(1 for _, m in cases if m["term"])}
 
 
+def gen_dumb_case(rng):
+    """starts and completions on the plain console; outputs with escape sequences, raw bytes, no final newline"""
+    ops, open_, nid, descs = [], [], 1, {}
+    shown = []
+    for _ in range(rng.randint(1, 14)):
+        if not open_ or rng.random() < 0.45:
+            d = rng.choice([None, b"", b"CC obj", "LINK \xe9".encode("latin-1"), b"x" * 90])
+            c = rng.choice([b"cc -c a.c", b"", b"touch out", "echo é".encode()])
+            descs[nid] = (d, c)
+            ops.append("S %d %s %s" % (nid, "~" if d is None else hexs(d), hexs(c)))
+            open_.append(nid)
+            nid += 1
+        else:
+            i = rng.choice(open_)
+            open_.remove(i)
+            d, c = descs[i]
+            out = rng.choice([b"", b"", b"plain\n", b"no newline", b"\x1b[31mred\x1b[0m\n", b"BEGIN\x1b[12345;END", b"tail\x1b", b"\xff\xfe\x00raw\n",
+                              b"a\r\nb\r\n", b"x" * 5000 + b"\n", "日本語\n".encode(), b"\x1b[2Kprogress\r\x1b[2Kdone\n"])
+            hide, term = rng.random() < 0.25, rng.choice([0, 0, 0, 1, 2])
+            ops.append("F %d %s %s %d %d %s" % (i, "~" if d is None else hexs(d), hexs(c), hide, term, hexs(out)))
+            if out and not (term == 0 and hide):
+                shown.append(out)
+    return "v=%d %s" % (rng.random() < 0.3, ";".join(ops)), shown
+
+
+def dumb_leg(run, rng, tier, drv):
+    har, out = build_harness()
+    if har is None:
+        run.tie("harness build", out[-2000:])
+        return {}
+    cases = [gen_dumb_case(rng) for _ in range(800 if tier == "quick" else 8000)]
+    lines = [c[0] for c in cases]
+    impl, model, bad = differential(run, "DumbConsoleProgress (what the plain console prints)", har, drv, "dumb", "dumb", lines)
+    for (l, shown), r in zip(cases, impl):
+        where = {"suite": "dumb", "case": l, "result": r[:300]}
+        if not r.startswith("ok "):
+            run.report_failure(None, "the plain console did not return: %s" % r[:160], where)
+            continue
+        text = unhexs(r[3:])
+        pos = 0
+        for blk in shown:                       # every output to be shown appears whole, in completion order
+            k = text.find(blk, pos)
+            if k < 0:
+                run.report_failure(None, "the output of a finished command (%d bytes, %r...) is not printed intact" % (len(blk), blk[:24]), where)
+                break
+            pos = k + len(blk)
+    return {"plain_console_cases": len(lines), "plain_console_disagreements": len(bad), "plain_console_blocks": sum(len(c[1]) for c in cases)}
+
+
 def main(tier, seed, replay=None):
     run = Run(PROP, tier, seed, "proof")
     rng = random.Random(seed)
     info, problems = proof_gate(PROP, THEOREMS, thorough=(tier == "thorough"))
-    info2, problems2 = proof_gate_multi(["C16Task"], thorough=(tier == "thorough"))
+    info2, problems2 = proof_gate_multi(["C16Task", "C16Dumb"], thorough=(tier == "thorough"))
     problems = problems + problems2
     info["obligations"] = info.get("obligations", 0) + info2.get("obligations", 0)
     info["discharged"] = info.get("discharged", 0) + info2.get("discharged", 0)
@@ -376,9 +425,11 @@ def main(tier, seed, replay=None):
         shutil.rmtree(base, ignore_errors=True)
     # ---- D. task::run_task around scripted commands, against Model/Task.v ----
     stats.update(task_leg(run, rng, tier, drv))
+    # ---- E. the plain console's printing against Model/Dumb.v ----
+    stats.update(dumb_leg(run, rng, tier, drv))
     run.coverage.update(info)
     run.coverage.update({
-        "model_vs_impl_disagreements": stats.get("run_task_disagreements", 0),
+        "model_vs_impl_disagreements": stats.get("run_task_disagreements", 0) + stats.get("plain_console_disagreements", 0),
         "checker_cmd": "make -C coq theories/Props/C16.vo theories/Props/C16Task.vo && coqc Gate_C16.v Gate_C16Task.v",
         "trusted_base": TRUSTED_BASE,
         "evaluations": stats["commands"] + stats["output_blocks"] + stats["exit_codes"] + stats["signals"],
